@@ -74,7 +74,8 @@ def plans(seed, q):
     fcore = ["AddImage", "AddHeader", "AddFormattedFooter", "AddListItem", "AddFootnote", "AddEndnote", "SetFootnoteConfig", "Reopen", "Placeholder", "Render"]
     P = [
         # the whole alphabet with every argument value, pairs
-        ("all", dict(ops=ALLOPS, depth=2, via=ALLVIA if not q else VIA1 | {["file", "multi", "run", "title", "legacy", "renderer", "bullet"][seed % 7]})),
+        ("all", dict(ops=ALLOPS, depth=2, via=ALLVIA if not q else VIA1 | {["file", "multi", "run", "title", "legacy", "renderer", "bullet"][seed % 7]},
+                     kinds=("default", "first", "even") if not q else k2[1:])),
         # every order of the relationship-creating calls, with Reopen in between
         ("core", dict(ops=core, depth=3 if q else 4, kinds=k2[:1], where=("body",))),
         # after opening packages with arbitrary relationship ids
@@ -82,7 +83,7 @@ def plans(seed, q):
                          new=False, schemes=SCHEMES, contents=["full"] if q else ["mix", "full"])),
     ]
     if q:
-        P += [("foreign1", dict(ops=ALLOPS, depth=1, via=VIA1 | {"legacy"}, new=False, schemes=SCHEMES,
+        P += [("foreign1", dict(ops=ALLOPS, depth=1, via=VIA1 | {"legacy"}, kinds=k2[:1], new=False, schemes=SCHEMES,
                                 contents=["min", "full", ["pics", "hf2", "notes", "mix", "hf"][seed % 5]])),
               # absolute targets, no header relationships / property relationships, opened from a file: rotated by the seed
               ("foreignabs", dict(ops=fcore, depth=1, kinds=("first",), where=("cell",), via=VIA1 | {"file"} - {"mem"}, new=False,
